@@ -197,6 +197,8 @@ pub static mut RNG_CALLS: usize = 0;
 pub static mut RNG_LAST_RANGE: usize = 0;
 pub static mut RNG_LAST_DRAW: usize = 0;
 pub static mut RNG_WORDS: usize = 0;
+pub static mut RNG_LAST_U64: u64 = 0;
+pub static mut RNG_U64_WORDS: usize = 0;
 
 pub fn rng_reset() {
     unsafe {
@@ -204,6 +206,8 @@ pub fn rng_reset() {
         RNG_LAST_RANGE = 0;
         RNG_LAST_DRAW = 0;
         RNG_WORDS = 0;
+        RNG_LAST_U64 = 0;
+        RNG_U64_WORDS = 0;
     }
 }
 pub fn rng_calls() -> usize {
@@ -218,6 +222,12 @@ pub fn rng_last_draw() -> usize {
 pub fn rng_words() -> usize {
     unsafe { RNG_WORDS }
 }
+pub fn rng_last_u64() -> u64 {
+    unsafe { RNG_LAST_U64 }
+}
+pub fn rng_u64_words() -> usize {
+    unsafe { RNG_U64_WORDS }
+}
 
 #[derive(Clone, Copy, Debug)]
 pub struct SymRng;
@@ -230,6 +240,10 @@ impl RngCore for SymRng {
     fn next_u64(&mut self) -> u64 {
         unsafe { RNG_WORDS += 1 };
         let v = any_u64();
+        unsafe {
+            RNG_LAST_U64 = v;
+            RNG_U64_WORDS += 1;
+        }
         #[cfg(not(kani))]
         {
             // A 16-byte record following the word is the (draw, range) pair the
@@ -304,6 +318,9 @@ pub fn stub_ln(x: f64) -> f64 {
     }
     if x == 1.0 {
         return 0.0;
+    }
+    if x == 2.0 {
+        return std::f64::consts::LN_2;
     }
     let r = env_f64();
     kani::assume(r.is_finite());
